@@ -56,6 +56,7 @@ class UCExec(Exec):
     def gep(self, st, fr, bty, base, idx):
         if isinstance(base, OPtr):
             off = super().gep(st, fr, bty, 0, idx)
+            if not isinstance(off, int): raise Unsupported('symbolic gep index')      # (an opaque object indexed by a symbol: the subclasses turn this into an opaque address)
             return OPtr(base.base, base.off + sgn(off, 64))
         return super().gep(st, fr, bty, base, idx)
     def load(self, st, addr, ty):
